@@ -12,7 +12,9 @@ import Upa.Props.C05c
 
   Two object models run the same operation list (`Op`, Impl/ObjRep.lean: two object slots; parse with
   no base / a string base / the other slot / the same slot as base; the ten setters; search_params();
-  the URLSearchParams edits; clear; copy assignment / construction; move assignment; safe_assign; swap):
+  the URLSearchParams edits incl. `remove` (update() only when something was removed); a list assigned
+  or safe_assign-ed from a standalone params object; `search_params() &&` (the owned list is moved out);
+  clear; copy assignment / construction; move assignment; safe_assign; swap):
 
     runR   on `RObj`   = (stored representation `Rep`, params object): `parseRep`, `setRep`, `updateRep`,
                          the params refilled from the QUERY part VIEW — the operations the C++ executes;
@@ -94,7 +96,8 @@ theorem C05g_init : ∀ idna : Idna, Sim₂ idna ({}, {}) ({}, {}) :=
 
 /-- Every operation keeps the relation on both slots, and returns the same result on both levels
     (`parse(...) == ok`, the setter's bool).  For the string-base overload the base is parsed first
-    into a fresh object, on both levels (`stepR` / `stepU`). -/
+    into a fresh object, on both levels (`stepR` / `stepU`); a base string that does not parse
+    counts as an invalid base object: the parse fails and the url is left empty and invalid. -/
 theorem C05g_step :
     ∀ (idna : Idna), IdnaStable idna → ∀ (op : Op), op.WF →
     ∀ (rs : RObj × RObj) (us : UrlObj × UrlObj), Sim₂ idna rs us →
@@ -134,6 +137,24 @@ theorem C05g_ops :
      sim_clear h, sim_copyAssign h hs, sim_copyConstruct hs, sim_moveAssign hs, sim_safeAssign h hs,
      rfl, rfl⟩
 
+/-- … and the operations on the owned params object that are not a `SpOp`: a list taken from a
+    standalone params object (`search_params() = other`, `search_params().safe_assign(std::move(other))`:
+    the list replaced, then `update()`), with or without the unconditional `update()`; and
+    `search_params() &&`, which moves the owned list out WITHOUT `update()`: the list no longer lists
+    the query (`C06b_move_from_owned_breaks_lock`), but it does so on both levels alike, and the
+    record is not touched, so the relation is kept -/
+theorem C05g_ops_params :
+    ∀ (idna : Idna) (ro : RObj) (o : UrlObj), Sim idna ro o →
+      (∀ (list : List BPair) (sorted always : Bool),
+        (∀ pr ∈ list, (∀ b ∈ pr.1, b < 256) ∧ (∀ b ∈ pr.2, b < 256)) →
+        Sim idna (ro.spApply (fun _ => { list := list, isSorted := sorted }) always)
+          (o.spApply (fun _ => { list := list, isSorted := sorted }) always)) ∧
+      Sim idna ro.searchParamsRvalue (uSearchParamsRvalue o) :=
+  fun _ _ _ h =>
+    ⟨fun list sorted always hl =>
+      sim_spApply h (fun _ => { list := list, isSorted := sorted }) (fun _ _ => hl) always,
+     sim_searchParamsRvalue h⟩
+
 /-- the history of the examples.  Slot 0 is parsed (upper-case host, explicit port);
     slot 1 is parsed against slot 0; its protocol becomes https, which makes 443 the default port:
     the port is cleared; slot 0 gets a params object, a pair is appended, the list is sorted (query
@@ -169,6 +190,25 @@ example :
     (stepU sampleIdna op us).1.2.url.map serialize = some (asciiStr "https://user@example.org/x?y") ∧
     (stepR sampleIdna op rs).2 = true ∧ (stepU sampleIdna op us).2 = true ∧
     Sim₂ sampleIdna rs us ∧ Sim₂ sampleIdna (stepR sampleIdna op rs).1 (stepU sampleIdna op us).1 := by
+  simp only [← runRK_eq, ← runUK_eq, ← stepRK_eq, ← stepUK_eq]
+  decide +kernel
+
+-- a string base that does not parse (url.h:202-212): as with an invalid base object, the parse fails
+-- and the url — here the valid slot 1 at the end of the example history, with its params object —
+-- is left empty and invalid, its list cleared; on both levels alike
+example :
+    let rs := runR sampleIdna c05gHist ({}, {})
+    let us := runU sampleIdna c05gHist ({}, {})
+    let op : Op := .parse true .u8 (asciiStr "x") (.str .u8 (asciiStr "//no-scheme"))
+    rs.2.rep.map (·.norm) = some (asciiStr "http://user@example.org:443/p/q?z=1#g") ∧
+    (stepR sampleIdna op rs).1.2 = { rep := none, sp := some { list := [], isSorted := true } } ∧
+    (stepU sampleIdna op us).1.2 = { url := none, sp := some { list := [], isSorted := true } } ∧
+    (stepR sampleIdna op rs).1.1 = rs.1 ∧
+    (stepR sampleIdna op rs).2 = false ∧ (stepU sampleIdna op us).2 = false ∧
+    -- the same as parsing against the (cleared, hence invalid) object in slot 0
+    (stepR sampleIdna op rs).1.2 =
+      (stepR sampleIdna (.parse true .u8 (asciiStr "x") .other) (rs.1.clear, rs.2)).1.2 ∧
+    Sim₂ sampleIdna (stepR sampleIdna op rs).1 (stepU sampleIdna op us).1 := by
   simp only [← runRK_eq, ← runUK_eq, ← stepRK_eq, ← stepUK_eq]
   decide +kernel
 
@@ -228,6 +268,69 @@ example :
 example : Sim₂ sampleIdna (runR sampleIdna c05gHist ({}, {})) (runU sampleIdna c05gHist ({}, {})) :=
   (C05g_history sampleIdna sampleIdna_stable c05gHist (by decide)).1
 
+/-- a second history, through the operations on the owned params object: `remove("zz")` creates the
+    params object and removes nothing (no `update()`); `remove("a", "3")` removes a pair (`update()`:
+    query rewritten); `search_params() &&` moves the list out (query kept, list empty — no longer in
+    lock-step); `remove("a")` on the empty list removes nothing, so the query STAYS (`del("a")` would
+    null it, see the example); a list assigned from a standalone params object; slot 1 copy-constructed
+    (no params object: `search_params() &&` does not touch it); a sorted list safe_assign-ed into
+    slot 1 (its params object is created first); `del` of an absent name (always `update()`). -/
+def c05gHist2 : List Op :=
+  [.parse false .u8 (asciiStr "http://h/p?a=1&b=2&a=3") .none,
+   .sp false (.remove (asciiStr "zz")),
+   .sp false (.remove2 (asciiStr "a") (asciiStr "3")),
+   .searchParamsRvalue false,
+   .sp false (.remove (asciiStr "a")),
+   .spAssign false [(asciiStr "x", asciiStr "1 2")] false,
+   .copyConstruct true false,
+   .searchParamsRvalue true,
+   .spSafeAssign true [(asciiStr "k", asciiStr "v"), (asciiStr "j", asciiStr "w")] true,
+   .sp true (.del (asciiStr "nothing"))]
+
+example : (∀ op ∈ c05gHist2, op.WF) ∧ (∀ op ∈ c05gHist2, op.NoProtocol) := by decide
+
+-- evaluated, state by state (slot 0)
+example :
+    let stAt (n : Nat) := runR sampleIdna (c05gHist2.take n) ({}, {})
+    let q (o : RObj) := o.rep.map (·.search)
+    let l (o : RObj) := o.sp.map (·.list)
+    -- remove("zz"): params object created, nothing removed, query as parsed
+    q (stAt 2).1 = some (asciiStr "?a=1&b=2&a=3") ∧
+    l (stAt 2).1 = some [(asciiStr "a", asciiStr "1"), (asciiStr "b", asciiStr "2"), (asciiStr "a", asciiStr "3")] ∧
+    -- remove("a", "3"): one pair removed, update()
+    q (stAt 3).1 = some (asciiStr "?a=1&b=2") ∧
+    l (stAt 3).1 = some [(asciiStr "a", asciiStr "1"), (asciiStr "b", asciiStr "2")] ∧
+    -- search_params() &&: the list is gone, the query stays
+    q (stAt 4).1 = some (asciiStr "?a=1&b=2") ∧ l (stAt 4).1 = some [] ∧
+    -- remove("a") removes nothing from the empty list: no update(), the query stays …
+    q (stAt 5).1 = some (asciiStr "?a=1&b=2") ∧ l (stAt 5).1 = some [] ∧
+    -- … where del("a") updates and nulls the query
+    q (stepR sampleIdna (.sp false (.del (asciiStr "a"))) (stAt 4)).1.1 = some [] ∧
+    -- search_params() = other
+    q (stAt 6).1 = some (asciiStr "?x=1+2") ∧ l (stAt 6).1 = some [(asciiStr "x", asciiStr "1 2")] := by
+  simp only [← runRK_eq, ← stepRK_eq]
+  decide +kernel
+-- slot 1: copy, `&&` without a params object, safe_assign of a sorted list, del of an absent name
+example :
+    let stAt (n : Nat) := runR sampleIdna (c05gHist2.take n) ({}, {})
+    (stAt 8).2 = (stAt 7).2 ∧ (stAt 7).2.sp = none ∧
+    (stAt 10).2.rep.map (·.search) = some (asciiStr "?k=v&j=w") ∧
+    (stAt 10).2.sp =
+      some { list := [(asciiStr "k", asciiStr "v"), (asciiStr "j", asciiStr "w")], isSorted := true } ∧
+    (stAt 10).1 = (stAt 6).1 := by
+  simp only [← runRK_eq]
+  decide +kernel
+-- the record level did the same; the relation holds at the end and in the lock-broken state
+example :
+    let us5 := runU sampleIdna (c05gHist2.take 5) ({}, {})
+    Sim₂ sampleIdna (runR sampleIdna c05gHist2 ({}, {})) (runU sampleIdna c05gHist2 ({}, {})) ∧
+    Sim₂ sampleIdna (runR sampleIdna (c05gHist2.take 5) ({}, {})) us5 ∧
+    us5.1.url.map getSearch = some (asciiStr "?a=1&b=2") ∧ us5.1.sp.map (·.list) = some [] := by
+  simp only [← runRK_eq, ← runUK_eq]
+  decide +kernel
+-- an instance of the theorem
+example : Sim₂ sampleIdna (runR sampleIdna c05gHist2 ({}, {})) (runU sampleIdna c05gHist2 ({}, {})) :=
+  (C05g_history sampleIdna sampleIdna_stable c05gHist2 (by decide)).1
 /-! ## 3. what can be observed of a valid object -/
 
 /-- In every reachable state, for each slot: the two levels agree on validity and on the params
@@ -393,6 +496,11 @@ example : ∀ (k : Slot) (r : Rep),
     ∃ r', parseRep sampleIdna .u8 r.href none = some r' ∧ Indist r' r :=
   fun k r hr => ((C05g_no_protocol sampleIdna sampleIdna_stable _ (by decide) (by decide)).2.2 k r hr).2
 
+-- the second history has no protocol call either (its lock-broken states included)
+example : ∀ (k : Slot) (r : Rep), (getSlot (runR sampleIdna c05gHist2 ({}, {})) k).rep = some r →
+    ∃ r', parseRep sampleIdna .u8 r.href none = some r' ∧ Indist r' r :=
+  fun k r hr => ((C05g_no_protocol sampleIdna sampleIdna_stable _ (by decide) (by decide)).2.2 k r hr).2
+
 /-- The file exception is real and reachable: `http://localhost/C|/x`, then `protocol = "file"`.
     The object is related to its record (the theorem applies), its record is a `FileExc` record,
     and a fresh parse of its href `file://localhost/C|/x` is a DIFFERENT URL, `file:///C:/x`
@@ -523,6 +631,7 @@ theorem C05g_bites_stale_params :
 #print axioms C05g_init
 #print axioms C05g_step
 #print axioms C05g_ops
+#print axioms C05g_ops_params
 #print axioms C05g_history
 #print axioms C05g_history_from
 #print axioms C05g_getters
